@@ -70,6 +70,8 @@ static std::vector<ReqSpec> alloc_reqs()
   rq(2, "fresh.example.com", 1, AF_INET); // 11 the fresh query issued after the fault
   rq(6, "10.1.2.3", 1, AF_UNSPEC);        // 12 literal
   rq(2, "www.example.com", 16, AF_INET);  // 13 TXT
+  rq(8, "fd00::1234:5", 12, AF_INET6);    // 14 gethostbyaddr, IPv6
+  rq(9, "2001:db8::ff00:42:8329", 12, AF_INET6); // 15 getnameinfo, IPv6
   return v;
 }
 
@@ -114,8 +116,7 @@ static std::vector<Scenario> scenarios(bool quick)
   for (auto &c : cfgs) {
     // initialisation alone (every option group of the configuration)
     v.push_back({ "init/" + c.name, c, {} });
-    for (int r = 0; r <= 13; r++) {
-      if (r == 11) continue;
+    for (int r : { 0, 1, 2, 3, 4, 5, 6, 7, 8, 9, 10, 12, 13, 14, 15 }) { // 14, 15: the IPv6 reverse lookups
       if (quick && c.name != "udp-edns" && !(r == 2 || r == 6 || r == 4)) continue;
       v.push_back({ "req" + std::to_string(r) + "-answered/" + c.name, c, { S_req(r), S_auto(RK_DATA) } });
       if (!quick || r == 2 || r == 6) {
